@@ -656,6 +656,10 @@ func corpus(c *run.Ctx, h *harness, entries []inproc) {
 	for _, f := range files {
 		entry, in := loadProbe(f)
 		h.s.Count("corpus")
+		if entry == "cmd" {
+			replayCmd(c, h, in)
+			continue
+		}
 		for _, e := range entries {
 			if e.name == entry {
 				if e.pre != nil {
@@ -792,6 +796,7 @@ func runC16(c *run.Ctx, s *kit.Summary) {
 	}
 
 	reportTypes(c, h, r)
+	commandRuns(c, h, kit.NewRng(c.Seed+16))
 }
 
 // reportTypes: the `--type` / `--buckets` handling of the report command (typ[4:] behind
@@ -867,6 +872,10 @@ func reportTypes(c *run.Ctx, h *harness, r *kit.Rng) {
 func replay(c *run.Ctx, h *harness, entries []inproc) {
 	entry, in := loadProbe(c.Replay)
 	h.s.Case("replay", true)
+	if entry == "cmd" {
+		replayCmd(c, h, in)
+		return
+	}
 	for _, e := range entries {
 		if e.name == entry {
 			if e.pre != nil {
